@@ -22,6 +22,30 @@ type cfgInfo struct {
 
 type dispatcherInfo []cfgInfo
 
+// redirectEdge makes the edge from.Succs[succIdx] lead to via instead of its current target,
+// and records in the target's predecessor list that the edge now arrives from via.
+// Phi edges are matched against that list, so it must be kept in sync.
+func redirectEdge(from *ssa.BasicBlock, succIdx int, via *ssa.BasicBlock) {
+	target := from.Succs[succIdx]
+	nth := 0 // a conditional jump may have both of its edges lead to target
+	for _, succ := range from.Succs[:succIdx] {
+		if succ == target {
+			nth++
+		}
+	}
+	for i, pred := range target.Preds {
+		if pred != from {
+			continue
+		}
+		if nth == 0 {
+			target.Preds[i] = via
+			break
+		}
+		nth--
+	}
+	from.Succs[succIdx] = via
+}
+
 // applyFlattening adds a dispatcher block and uses ssa.Phi to redirect all ssa.Jump and ssa.If to the dispatcher,
 // additionally shuffle all blocks
 func applyFlattening(ssaFunc *ssa.Function, obfRand *mathrand.Rand) dispatcherInfo {
@@ -58,7 +82,7 @@ func applyFlattening(ssaFunc *ssa.Function, obfRand *mathrand.Rand) dispatcherIn
 			targetBlock := block.Succs[0]
 			fakeBlock := makeJumpBlock(block)
 			blocksMapping = append(blocksMapping, blockMapping{fakeBlock, targetBlock})
-			block.Succs[0] = fakeBlock
+			redirectEdge(block, 0, fakeBlock)
 		case *ssa.If:
 			tblock, fblock := block.Succs[0], block.Succs[1]
 			fakeTblock, fakeFblock := makeJumpBlock(tblock), makeJumpBlock(fblock)
@@ -66,8 +90,8 @@ func applyFlattening(ssaFunc *ssa.Function, obfRand *mathrand.Rand) dispatcherIn
 			blocksMapping = append(blocksMapping, blockMapping{fakeTblock, tblock})
 			blocksMapping = append(blocksMapping, blockMapping{fakeFblock, fblock})
 
-			block.Succs[0] = fakeTblock
-			block.Succs[1] = fakeFblock
+			redirectEdge(block, 0, fakeTblock)
+			redirectEdge(block, 1, fakeFblock)
 		case *ssa.Return, *ssa.Panic:
 			// control flow flattening is not applicable
 		default:
@@ -164,7 +188,7 @@ func addJunkBlocks(ssaFunc *ssa.Function, count int, obfRand *mathrand.Rand) {
 			Succs:   []*ssa.BasicBlock{succs},
 		}
 		setBlockParent(fakeBlock, ssaFunc)
-		targetBlock.Succs[succsIdx] = fakeBlock
+		redirectEdge(targetBlock, succsIdx, fakeBlock)
 
 		ssaFunc.Blocks = append(ssaFunc.Blocks, fakeBlock)
 		candidates = append(candidates, fakeBlock)
@@ -295,7 +319,7 @@ func addTrashBlockMarkers(ssaFunc *ssa.Function, count int, obfRand *mathrand.Ra
 			Succs: []*ssa.BasicBlock{trashBlock, succs},
 		}
 		setBlockParent(trashBlockDispatch, ssaFunc)
-		targetBlock.Succs[succsIdx] = trashBlockDispatch
+		redirectEdge(targetBlock, succsIdx, trashBlockDispatch)
 
 		trashBlock.Preds = []*ssa.BasicBlock{trashBlockDispatch, trashBlock}
 		trashBlock.Succs = []*ssa.BasicBlock{trashBlock}
